@@ -10,7 +10,7 @@ from harness.common import Check
 from translate import dispatch as t_disp, guards as t_guards, ops as t_ops
 
 THEOREMS = ["C17_range", "C17_hard_values", "C17_hard_event", "C17_hard_temperature_independent", "C17_hard_probability",
-            "C17_reproducible", "C17_guard", "C17_layer_hard_single_gate", "C17_layer_soft_mixture", "C17_sampling_source"]
+            "C17_reproducible", "C17_guard", "C17_layer_hard_single_gate", "C17_layer_soft_mixture", "C17_sampling_source", "C17_hard_threshold_outside"]
 TRUSTED = [
     "Coq 8.16.1 kernel/coqc; theorems over R depend on the standard-library Reals axioms and Classical_Prop.classic",
     "partial: that torch.rand_like returns independent uniform variates on [0,1) is trusted (the distributional claim is reduced to the "
